@@ -4,7 +4,7 @@ R-own, R-pair, R-dangle, R-core (DESIGN §4 C01)."""
 import os
 import re
 
-from upv import facts, control, ownrule
+from upv import facts, control, ownrule, own
 from upv import pathrules as pr
 from upv.facts import (strip, strip_all_casts, strip_expect, walk, is_assign, const_of,
                        enum_name, path_of, root_of)
@@ -586,6 +586,256 @@ def check_use_then_fail(rep, prog):
     if n < 15:
         raise facts.AnalysisBroken('R-use-then-fail found only %d pins of parameters' % n)
 
+LIST_DRAIN_OK = {
+    # (record, field): reason
+}
+
+
+def check_list_drain(rep, prog):
+    """a list of urefs kept in the private structure of a pipe is emptied by the function that frees the pipe"""
+    rep.rule('R-list-drain', 'every list field of a pipe structure to which the unit adds urefs it owns (ulist_add / ulist_unshift of uref_to_uchain(..)): the '
+             'function of that unit that frees this kind of pipe (the one throwing "dead" and using the same structure) reaches, directly or through functions of '
+             'the unit, code that takes the elements off that very list (ulist_pop, or ulist_delete inside a walk of it) and frees a uref - otherwise whatever the '
+             'list holds when the last reference goes is never freed, for any history that leaves the list non-empty')
+
+    def list_field(fn, arg):
+        a = strip_all_casts(fn.resolve(arg))
+        if isinstance(a, dict) and a.get('k') == 'un' and a.get('op') == '&':
+            m = strip_all_casts(a['e'])
+            if isinstance(m, dict) and m.get('k') == 'mem':
+                return (m.get('rec'), m.get('f'))
+        return None
+
+    n = 0
+    for uname, u in sorted(prog.units.items()):
+        adds = {}
+        for fn in u.funcs.values():
+            if not fn.blocks or fn.macro:
+                continue
+            for _, _, x in fn.nodes():
+                if x.get('k') == 'call' and x.get('fn') in ('ulist_add', 'ulist_unshift') and len(x.get('args', [])) >= 2:
+                    e = strip_all_casts(fn.resolve(x['args'][1]))
+                    if isinstance(e, dict) and e.get('k') == 'call' and e.get('fn') == 'uref_to_uchain':
+                        lf = list_field(fn, x['args'][0])
+                        if lf and lf[0]:
+                            adds.setdefault(lf, []).append((fn, x))
+        if not adds:
+            continue
+
+        def target(fn, arg):
+            lf_ = list_field(fn, arg)
+            if lf_:
+                return lf_
+            a = strip_all_casts(fn.resolve(arg))
+            if isinstance(a, dict) and a.get('k') == 'ref' and a.get('d') == 'param':
+                return ('param', a.get('n'))
+            return None
+
+        def drains(fn, lf, seen):
+            """name of the function that empties the list lf (a (record, field) pair, or ('param', name) inside a helper taking the list) and frees urefs"""
+            if (fn.name, lf) in seen:
+                return None
+            seen.add((fn.name, lf))
+            nodes = [x for _, _, x in fn.nodes()]
+            frees = any(x.get('k') == 'call' and x.get('fn') == 'uref_free' for x in nodes)
+
+            def mentions(y):
+                if lf[0] == 'param':
+                    return y.get('k') == 'ref' and y.get('d') == 'param' and y.get('n') == lf[1]
+                return y.get('k') == 'mem' and (y.get('rec'), y.get('f')) == lf
+            for x in nodes:
+                if x.get('k') != 'call':
+                    continue
+                if frees and x.get('fn') == 'ulist_pop' and x.get('args') and target(fn, x['args'][0]) == lf:
+                    return fn.name
+                if frees and x.get('fn') == 'ulist_delete' and any(mentions(y) for y in nodes):
+                    return fn.name
+            for x in nodes:
+                if x.get('k') != 'call':
+                    continue
+                g = u.funcs.get(x.get('fn')) or (prog.hdr.funcs.get(x.get('fn')) if prog.hdr else None)
+                if g is None or not g.blocks:
+                    continue
+                # the list itself handed to a helper that empties the list it is given
+                for i, a in enumerate(x.get('args', [])):
+                    if target(fn, a) == lf and i < len(g.params):
+                        pn = g.params[i][0] if isinstance(g.params[i], (list, tuple)) else (g.params[i].get('n') if isinstance(g.params[i], dict) else g.params[i])
+                        r = drains(g, ('param', pn), seen)
+                        if r:
+                            return r
+                if lf[0] != 'param' and x.get('fn') in u.funcs:
+                    r = drains(g, lf, seen)
+                    if r:
+                        return r
+            return None
+
+        frees = [fn for fn in u.funcs.values() if fn.blocks and not fn.macro
+                 and any(x.get('k') == 'call' and x.get('fn') == 'upipe_throw_dead' for _, _, x in fn.nodes())]
+        for lf, sites in sorted(adds.items()):
+            rec = re.sub(r'^struct ', '', lf[0])
+            mine = [f for f in frees if any((x.get('k') == 'call' and x.get('fn') == rec + '_from_upipe')
+                                            or (x.get('k') == 'mem' and x.get('rec') == lf[0]) for _, _, x in f.nodes())]
+            if not mine:
+                mine = [f for f in frees if f.name == rec + '_free'] or frees
+            inst = '%s.%s' % (rec, lf[1])
+            n += 1
+            if not mine:
+                rep.add('R-list-drain', inst, UNDECIDED, sites[0][0].loc, why='no function of the unit throws "dead"')
+                continue
+            bad = [f for f in mine if not drains(f, lf, set())]
+            if bad and lf in LIST_DRAIN_OK:
+                rep.add('R-list-drain', inst, OOS, bad[0].loc, why='listed: ' + LIST_DRAIN_OK[lf])
+            elif bad:
+                rep.add('R-list-drain', inst, VIOLATED, bad[0].loc,
+                        what='%s (line %s) adds urefs it owns to the list %s, and %s, which frees this pipe, never takes them off that list: every uref still listed '
+                             'when the pipe goes is leaked' % (sites[0][0].name, sites[0][1].get('l'), inst, bad[0].name))
+            else:
+                rep.add('R-list-drain', inst, HOLDS, mine[0].loc, drained_by=drains(mine[0], lf, set()), added_in=sorted({f.name for f, _ in sites}))
+    return n
+
+FIELD_FREE_OK = {
+    # (record, field): reason
+}
+
+BORROWED_ARG_OK = {
+    'upipe_vblk_set_pic_real': 'upipe_vblk_set_pic hands the picture over: its only caller (upipe_blank_source.c) relies on it, and the function frees or keeps the '
+                               'uref on every path (also listed in the consumer table)',
+    'upipe_ablk_set_sound_real': 'upipe_ablk_set_sound hands the sound buffer over, same convention as upipe_vblk_set_pic',
+}
+
+
+def check_field_free(rep, prog):
+    """a uref / ubuf field the unit itself treats as owned is freed by the function that frees the pipe"""
+    rep.rule('R-field-free', 'every struct uref * / struct ubuf * field of a pipe structure that the unit fills with something other than NULL and that the unit '
+             'itself treats as owned somewhere (it frees it, or sends it downstream, from that field): the function freeing that kind of pipe reaches a '
+             'uref_free / ubuf_free of that field (or sends it downstream a last time), directly or through functions of the unit. A field the unit never frees anywhere is a borrowed pointer and is '
+             'not an instance (contradiction rule: freed in one place, forgotten in the destructor)')
+    n = 0
+    TYPES = ('struct uref *', 'struct ubuf *')
+
+    def field_of(fn, a):
+        a = strip_all_casts(fn.resolve(a))
+        if isinstance(a, dict) and a.get('k') == 'mem' and a.get('t') in TYPES and a.get('rec'):
+            return (a.get('rec'), a.get('f'))
+        return None
+
+    for uname, u in sorted(prog.units.items()):
+        stored, owned = {}, {}
+        for fn in u.funcs.values():
+            if not fn.blocks:
+                continue
+            for _, _, x in fn.nodes():
+                if is_assign(x) and x.get('op') == '=':
+                    l = strip_all_casts(x['lhs'])
+                    if isinstance(l, dict) and l.get('k') == 'mem' and l.get('t') in TYPES and l.get('rec'):
+                        r = strip_all_casts(x['rhs'])
+                        if const_of(r) == 0:
+                            continue
+                        stored.setdefault((l['rec'], l['f']), []).append((fn, x))
+                elif x.get('k') == 'call' and x.get('fn') and (x['fn'] in ('uref_free', 'ubuf_free') or own.FORWARD_RE.search(x['fn'])):
+                    for a in x.get('args', []):
+                        k = field_of(fn, a)
+                        if k:
+                            owned.setdefault(k, []).append((fn, x))
+        if not stored:
+            continue
+        frees = [fn for fn in u.funcs.values() if fn.blocks and not fn.macro
+                 and any(x.get('k') == 'call' and x.get('fn') == 'upipe_throw_dead' for _, _, x in fn.nodes())]
+
+        def freed(fn, key, seen):
+            if fn.name in seen:
+                return None
+            seen.add(fn.name)
+            for _, _, x in fn.nodes():
+                if x.get('k') == 'call' and x.get('fn') and (x['fn'] in ('uref_free', 'ubuf_free') or own.FORWARD_RE.search(x['fn'])) \
+                        and any(field_of(fn, a) == key for a in x.get('args', [])):
+                    return fn.name      # freed, or flushed downstream
+            for _, _, x in fn.nodes():
+                if x.get('k') == 'call' and x.get('fn') in u.funcs and u.funcs[x['fn']].blocks:
+                    r = freed(u.funcs[x['fn']], key, seen)
+                    if r:
+                        return r
+            return None
+
+        for key, sites in sorted(stored.items()):
+            if key not in owned:
+                continue
+            rec = key[0]
+            mine = [f for f in frees if f.name == rec + '_free' or any(x.get('k') == 'call' and x.get('fn') == rec + '_from_upipe' for _, _, x in f.nodes())]
+            if not mine:
+                continue        # not the private structure of a pipe of this unit
+            n += 1
+            inst = '%s.%s' % key
+            bad = [f for f in mine if not freed(f, key, set())]
+            if bad and key in FIELD_FREE_OK:
+                rep.add('R-field-free', inst, OOS, bad[0].loc, why='listed: ' + FIELD_FREE_OK[key])
+            elif bad:
+                o = owned[key][0]
+                rep.add('R-field-free', inst, VIOLATED, bad[0].loc,
+                        what='%s (line %s) fills the field %s and %s (line %s) disposes of it with %s, so the pipe owns it; %s, which frees this pipe, never '
+                             'frees it: whatever the field holds when the pipe goes is leaked'
+                             % (sites[0][0].name, sites[0][1].get('l'), inst, o[0].name, o[1].get('l'), o[1].get('fn'), bad[0].name))
+            else:
+                rep.add('R-field-free', inst, HOLDS, mine[0].loc, freed_by=freed(mine[0], key, set()))
+    return n
+
+
+def check_borrowed_arg(rep, prog):
+    """what a control command passes as an argument stays the caller's"""
+    from upv import own as own_
+    rep.rule('R-borrowed-arg', 'every function with the signature of a control dispatcher (pipe, int command, va_list) or of an event catcher (probe, pipe, int event, va_list): a struct uref * / struct ubuf * it extracts '
+             'from the argument list belongs to the caller (upipe.h / uprobe.h: control and event arguments are borrowed) - each call it is passed to must borrow it too, as decided by '
+             'the ownership engine on the callee body (summary with the argument owned: no exit on which it was freed, sent on or kept). A callee that frees or '
+             'keeps it makes the caller free a second time. Listed exceptions: the two commands documented as taking the buffer over')
+    inputs = ownrule.input_functions(prog)
+    W = own_.Own(prog, inputs, {})
+    n = 0
+    for uname, u in sorted(prog.units.items()):
+        for fn in sorted(u.funcs.values(), key=lambda f: f.name):
+            # control dispatchers (pipe, command, args) and event catchers (probe, pipe, event, args); not the call-backs of
+            # requests (urequest, args), whose arguments belong to the callee
+            if not fn.blocks or not fn.params or 'va_list' not in fn.params[-1]['t'] or len(fn.params) < 3 or fn.params[-2]['t'] != 'int':
+                continue
+            born, other = set(), set()
+            for _, _, x in fn.nodes():
+                if x.get('k') == 'decl':
+                    for v in x['vars']:
+                        i = strip_all_casts(v['init']) if isinstance(v.get('init'), dict) else None
+                        if isinstance(i, dict) and i.get('k') == 'va_arg' and v.get('t') in own_.TRACKED_TYPES:
+                            born.add(v['n'])
+                        else:
+                            other.add(v['n'])
+                elif is_assign(x):
+                    l = strip(x['lhs'])
+                    if isinstance(l, dict) and l.get('k') == 'ref':
+                        other.add(l['n'])
+            born -= other
+            if not born:
+                continue
+            for _, _, x in fn.nodes():
+                if x.get('k') != 'call' or not x.get('fn'):
+                    continue
+                for i, a in enumerate(x.get('args', [])):
+                    a0 = strip_all_casts(a)
+                    if not (isinstance(a0, dict) and a0.get('k') == 'ref' and a0.get('n') in born):
+                        continue
+                    act = W.action(u, x['fn'], i)
+                    inst = '%s:%s(%s)' % (fn.name, x['fn'], a0['n'])
+                    n += 1
+                    if not isinstance(act, frozenset):
+                        rep.add('R-borrowed-arg', inst, UNDECIDED, '%s:%s' % (fn.file, x.get('l')), why='callee outcome: %s' % act)
+                    elif any(at in ('C', 'K') for at, _ in act):
+                        if x['fn'] in BORROWED_ARG_OK:
+                            rep.add('R-borrowed-arg', inst, OOS, '%s:%s' % (fn.file, x.get('l')), why='listed: ' + BORROWED_ARG_OK[x['fn']])
+                        else:
+                            rep.add('R-borrowed-arg', inst, VIOLATED, '%s:%s' % (fn.file, x.get('l')),
+                                    what='%s passes the %s it took from the control arguments (%s) to %s, which on some path frees it, sends it on or keeps it '
+                                         '(outcomes %s): control arguments belong to the caller, who frees the same object again'
+                                         % (fn.name, a0.get('t'), a0['n'], x['fn'], sorted(map(str, act))))
+                    else:
+                        rep.add('R-borrowed-arg', inst, HOLDS, '%s:%s' % (fn.file, x.get('l')))
+    return n
+
 
 def run(tier='quick', repo=None):
     repo = repo or facts.REPO
@@ -606,6 +856,15 @@ def run(tier='quick', repo=None):
     check_holdpin(rep, prog)
     check_own_pipe(rep, prog)
     check_use_then_fail(rep, prog)
+    nld = check_list_drain(rep, prog)
+    if nld < (10 if tier == 'thorough' else 8):
+        raise facts.AnalysisBroken('R-list-drain found only %d uref lists' % nld)
+    nff = check_field_free(rep, prog)
+    if nff < (150 if tier == 'thorough' else 100):
+        raise facts.AnalysisBroken('R-field-free found only %d owned uref/ubuf fields' % nff)
+    nba = check_borrowed_arg(rep, prog)
+    if nba < (100 if tier == 'thorough' else 60):
+        raise facts.AnalysisBroken('R-borrowed-arg found only %d uses of borrowed control arguments' % nba)
     from upv import provide
     nprov = provide.run(rep, prog)
     if nprov < 30:
